@@ -346,15 +346,18 @@ def random_direct(rng: random.Random, n=None, strat=None, max_steps=160, progres
 class ScriptedLatency(LatencyDistribution):
     """Per-message delay drawn from a seeded adversarial profile (reorderings, stragglers)."""
 
-    def __init__(self, rng, profile):
+    def __init__(self, rng, profile, fixed=0.01):
         super().__init__(0.0)
         self.rng = rng
         self.profile = profile
+        self.fixed = fixed          # profile "links": one constant delay per directed link
 
     def get_latency(self, current_time):
         r = self.rng.random()
         p = self.profile
-        if p == "bounded":
+        if p == "links":
+            d = self.fixed
+        elif p == "bounded":
             d = 0.001 + 0.02 * r
         elif p == "straggler":
             d = 0.001 + 0.01 * r if r < 0.75 else 0.4 + 2.5 * self.rng.random()
@@ -367,9 +370,12 @@ class ScriptedLatency(LatencyDistribution):
 
 def sim_run(rng: random.Random, n=None, profile=None, progress=False):
     n = n or rng.choice((3, 3, 4, 5))
-    profile = "bounded" if progress else (profile or rng.choice(("straggler", "wide", "ties", "bounded")))
+    profile = "bounded" if progress else (profile or rng.choice(("straggler", "wide", "ties", "bounded", "links", "links")))
     lat_rng = random.Random(rng.random())
-    net, nodes = build_nodes(n, lambda: ScriptedLatency(lat_rng, profile))
+    # "links": every directed link has its own constant delay, some of them slow (an Accept held back
+    # past a competing decision), in the same range as the retry delay (0.5-1 s)
+    net, nodes = build_nodes(n, lambda: ScriptedLatency(lat_rng, profile,
+                                                        fixed=lat_rng.choice((0.01, 0.01, 0.01, 0.2, 0.2, 0.6, 1.3))))
     rec = Recorder(nodes)
     random.seed(rng.random())
     for nd in nodes:
@@ -378,6 +384,10 @@ def sim_run(rng: random.Random, n=None, profile=None, progress=False):
     nv = 0
     if progress:
         plan = [(0.1, rng.randint(1, n))]
+    elif profile == "links":
+        # competing proposers that start within one link delay of each other (same ballot numbers)
+        who = rng.sample(range(1, n + 1), rng.choice((2, 2, 3)))
+        plan = sorted((round(0.1 + rng.choice((0.0, 0.05, 0.25, 0.4)) + rng.random() * 0.01, 4), w) for w in who)
     else:
         plan = sorted((round(rng.choice((0.1, 0.1, 0.1 + rng.random() * 0.05, rng.random() * 3.0)), 4), rng.randint(1, n))
                       for _ in range(rng.choice((1, 2, 2, 3, 3, 4))))
@@ -388,7 +398,19 @@ def sim_run(rng: random.Random, n=None, profile=None, progress=False):
             return rec.client_propose(nodes[who - 1], v)
         sim.schedule(Event.once(time=Instant.from_seconds(t), event_type=f"Propose{nv}", fn=fire))
     parts = []
-    if not progress and rng.random() < 0.4:
+    if not progress and profile == "links" and rng.random() < 0.7:
+        # two of the proposers cannot talk to each other; the partition heals later (or never)
+        pa, pb = plan[0][1], plan[-1][1]
+        if pa != pb:
+            holder = {}
+            heal_at = rng.choice((None, 1.0, 2.5, 6.0))
+            sim.schedule(Event.once(time=Instant.from_seconds(0.0), event_type="Cut", fn=lambda e: holder.update(
+                p=net.partition([nodes[pa - 1]], [nodes[pb - 1]]))))
+            if heal_at:
+                sim.schedule(Event.once(time=Instant.from_seconds(heal_at), event_type="Heal",
+                                        fn=lambda e: holder["p"].heal()))
+            parts = [pa, pb, 0.0, heal_at]
+    elif not progress and rng.random() < 0.4:
         # partition episode: isolate one node for a while (messages are dropped by the real Network)
         iso = rng.randint(1, n)
         t0 = round(rng.random() * 1.0, 3)
@@ -421,3 +443,64 @@ def _recording_handler(nd, rec):
         rec.rec("deliver", idx_of(nd.name), nd, m=enc_msg(event), out=lst)
         return out
     return handle
+
+
+# ---------------------------------------------------------------------------
+# code -> spec: round-structured adversarial schedules (direct drive)
+
+def rounds_direct(rng: random.Random, n=None, max_steps=220):
+    """Competing proposers whose rounds are cut short on purpose: a proposer starts (or retries) before it
+    has seen the others' Prepares (same ballot numbers on different nodes), phase 1 reaches only a
+    quorum-sized subset that avoids the other proposers (partition), Accepts are held back past a
+    competing decision, nacks trigger retries, and at the end the partition heals and everything in
+    flight is delivered in random order."""
+    n = n or rng.choice((3, 3, 3, 4, 5))
+    q = n // 2 + 1
+    c = DirectCluster(n)
+    random.seed(rng.random())
+    proposers = rng.sample(range(1, n + 1), rng.choice((2, 2, 3)))
+    nv = 0
+
+    def deliver_all(pred, limit=None):
+        evs = [ev for ev, em in c.pool if pred(em)]
+        rng.shuffle(evs)
+        for ev in evs[:limit]:
+            k = next((i for i, (e2, _) in enumerate(c.pool) if e2 is ev), None)
+            if k is not None and len(c.rec.steps) < max_steps and not c.rec.error:
+                c.deliver(k)
+
+    order = sorted(proposers) if rng.random() < 0.7 else list(proposers)
+    n_rounds = rng.choice((3, 4, 4, 5, 6))
+    for r in range(n_rounds):
+        first_pass = r < len(order)
+        if first_pass:
+            p = order[r]
+        else:
+            # overdue Accepts of the others reach acceptors that have moved on: nacks, retry timers
+            if rng.random() < 0.8:
+                deliver_all(lambda m: m["t"] == "accept", limit=rng.randint(1, 4))
+                deliver_all(lambda m: m["t"] == "nack")
+            waiting = [em["dst"] for _, em in c.pool if em["t"] == "retry"]
+            p = rng.choice(waiting) if waiting and rng.random() < 0.85 else rng.choice(proposers)
+        retries = [i for i, (_, em) in enumerate(c.pool) if em["t"] == "retry" and em["dst"] == p]
+        if retries:
+            c.deliver(retries[0])
+        else:
+            nv += 1
+            c.propose(p, nv)
+        b = c.node(p)._current_ballot.number
+        peers = [i for i in range(1, n + 1) if i != p]
+        cand = [x for x in peers if x not in proposers or rng.random() < (0.15 if first_pass else 0.5)] or peers
+        subset = set(rng.sample(cand, rng.randint(min(max(1, q - 1), len(cand)), len(cand))))
+        deliver_all(lambda m: m["t"] == "prepare" and m["src"] == p and m["bn"] == b and m["dst"] in subset)
+        deliver_all(lambda m: m["t"] in ("promise", "nack") and m["dst"] == p and m["bn"] == b)
+        stall = rng.random() < (0.6 if first_pass and r + 1 < len(order) else 0.25)
+        if not stall:                   # otherwise the Accepts of this ballot stay in flight (slow links)
+            sub2 = set(rng.sample(peers, rng.randint(0, len(peers))))
+            deliver_all(lambda m: m["t"] == "accept" and m["src"] == p and m["bn"] == b and m["dst"] in sub2)
+            if rng.random() < 0.85:
+                deliver_all(lambda m: m["t"] in ("accepted", "nack") and m["dst"] == p and m["bn"] == b)
+    # heal: everything still in flight, in random order (retries included)
+    while c.pool and len(c.rec.steps) < max_steps and not c.rec.error:
+        c.deliver(rng.randrange(len(c.pool)))
+    return c, {"n": n, "strat": "rounds", "proposers": proposers, "drained": not c.pool}
